@@ -336,7 +336,7 @@ func runC03(c *Ctx) {
 	maxLen := r.Pick(3, 4)
 	r.SetRule(fmt.Sprintf("exhaustive: keys over {a,b,/} up to length %d not starting/ending with '/', bucket contents = every subset of size <= %d (quick: 3, thorough: 2 plus random larger ones) reached by put/delete transitions, every prefix up to length %d not starting with the delimiter, delimiters absent and '/' on every backend plus 'b','-','.' on mem/bolt, V1, V2 and Go API; random: rich keys (escaped characters, multi-byte, characters sorting before '/') with every byte prefix of every live key, including prefixes that end inside a multi-byte character; distinct = (backend, live key set, prefix, delimiter, API form)", maxLen, r.Pick(3, 2), maxLen))
 	r.Exhaustive(true)
-	targets := []c03Target{{drv.Mem, false}, {drv.Mem, true}, {drv.Bolt, false}, {drv.FsMM, false}, {drv.FsDir, false}, {drv.SingleMM, false}, {drv.SingleDir, false}}
+	targets := []c03Target{{drv.Mem, false}, {drv.Mem, true}, {drv.Bolt, false}, {drv.FsMM, false}, {drv.FsDir, false}, {drv.SingleMM, false}, {drv.SingleDir, false}, {drv.SingleDirMemMeta, false}}
 	var tn []string
 	for _, t := range targets {
 		tn = append(tn, t.name())
@@ -524,8 +524,36 @@ func c03Random(r *rep.Reporter, s *drv.Server, bucket string, t c03Target, idx i
 		if !syncBucket(r, s, bucket, live, want, fmt.Sprintf("r%d-%d", idx, round)) {
 			return
 		}
+		// uploads that a file backend refuses for reasons of its own (a path segment or the
+		// flattened metadata name longer than the file system allows) are part of the history
+		// too: whatever they leave behind must not show up in a listing. If one is accepted
+		// it is simply a live key.
+		if isFs {
+			for di, dk := range []string{
+				fmt.Sprintf("doomed%d-%d-a/", idx, round) + strings.Repeat("x", 240),
+				fmt.Sprintf("doomed%d-%d-b/", idx, round) + strings.Repeat("y", 300) + "/c",
+				fmt.Sprintf("doomed%d-%d-c/sub/", idx, round) + strings.Repeat("z", 250) + "/" + strings.Repeat("w", 10),
+			} {
+				if d != "" && d != "/" {
+					break
+				}
+				body := []byte(fmt.Sprintf("doomed %d", di))
+				p := s.Put(bucket, dk, body, nil)
+				r.Count("uploads_with_overlong_names", 1)
+				switch {
+				case p.Status == 200:
+					live[dk] = liveObj{etag: drv.QuotedMD5(body), size: int64(len(body))}
+					want = append(want, dk)
+				case p.Panic != nil:
+					r.Violation(sig("C03", backendClass(s.Kind), "panic", "overlong-name"), fmt.Sprintf("%s PUT of a %d-byte key panicked: %v", s.Kind, len(dk), p.Panic), respDesc(p))
+					return
+				default:
+					r.Count("uploads_with_overlong_names_refused", 1)
+				}
+			}
+		}
 		// prefixes: every byte-prefix of live keys cut at rune boundaries, plus a few random ones
-		pset := map[string]bool{"": true}
+		pset := map[string]bool{"": true, "doomed": true, fmt.Sprintf("doomed%d-%d-b/", idx, round): true, fmt.Sprintf("doomed%d-%d-c/", idx, round): true}
 		for _, k := range want {
 			for i := range k {
 				pset[k[:i]] = true
